@@ -16,6 +16,29 @@ CLAIMED = {
    technique="Lean 4 invariant proof over a hand-written model + exhaustive small-scope correspondence + Lean monitor on implementation traces",
    design="§6 C18"),
 }
+
+def _core(pid, text, design):
+    return dict(text=text + " Whole-history clauses: the real loop is run on the witness corpus and on generated histories (operations between dispatches and scripted callback programs, all source kinds incl. composite sources with lifecycle hooks and scripted failures), compared with the Lean model on every observation line the property's monitor reads, and judged by Spec.Core's %s clauses (a Lean monitor) on the implementation's own trace." % pid,
+        note="Trusted: Lean kernel + standard axioms; Spec.Core as the reading of the English; the hand-written model of the loop (lean/Verif/Model/Loop.lean), of epoll/eventfd (Kernel.lean), of the timer wheel and the slot table, tied to the code by differential runs (sampled, not exhaustive). The theorems cover the mechanism (components); the history-level clauses are checked on sampled implementation traces, not proved for all histories.",
+        technique="Lean 4 proofs about the model's components + correspondence of the executable loop model with the real crate + Lean monitor on implementation traces",
+        design=design)
+
+CORE = {
+ "C01": ("Lean theorems: generation-checked slot lookup is sound (lookup_sound), a previous occupant's key is unroutable after reuse (stale_key_unroutable, below 2^16 reuses), reuse does not affect other slots, only vacant slots are handed out, the poller model reports only registered keys with requested readiness, the Generic gate accepts only the source's own (sub-)token.", "§6 C01"),
+ "C02": ("Lean theorems: readiness existing at registration or arriving later queues the poller entry, a ready level entry is reported and re-queued on every wait, Poll::poll leaves no expired timer behind (for every wheel and instant), the channel drain budget is >= 1 and an exhausted budget re-pings.", "§6 C02"),
+ "C05": ("Lean theorems about the timer wheel for every wheel and instant: what a poll pops is due, in non-decreasing deadline order and complete (poll_pops_exactly_the_due_in_order), next_expired is never early and earliest-first, cancel removes the arming and only it, counters are fresh.", "§6 C05"),
+ "C06": ("Lean theorems: after removal the token resolves to a vacant slot (token ops answer InvalidToken, remove is a no-op), after reuse it does not resolve at all, for any number of reuses below 2^16; C06_wrap_false proves the unrestricted claim false at exactly 2^16 reuses (finding F12, replayed on the real loop with 65536 insert/remove cycles).", "§6 C06"),
+ "C07": ("Lean theorems: an unregistered Generic rejects every event (also those already collected), a timer without registration or with its current arming still in the wheel does not fire, DEL removes the fd from table and ready list and nothing else, and does not consume the eventfd counter (readiness survives).", "§6 C07"),
+ "C08": ("Lean theorems about the dispatcher cell: disable/update aimed at the running source return 'deferred' with the state untouched (no borrow, no panic); register (enable) of the running source is the one panicking call = the documented exclusion.", "§6 C08"),
+ "C09": ("Lean theorems: the | and |= tables for all 16 pairs about the definitions regenerated from src/sources/mod.rs on every run (plus commutativity, idempotence, associativity), and the resolution of returned action vs deferred request (explicit non-Continue wins).", "§6 C09"),
+ "C13": ("Lean theorems about dispatch_idles: the queue is taken (emptied) before the first callback, so idles inserted by idles go to the next dispatch; the snapshot is walked in order; a cancelled entry is a no-op; dropping the handle does not cancel.", "§6 C13"),
+ "C14": ("Lean theorems about the additional-lifecycle set: registration idempotent and duplicate-free (finding F1's fix), unregistration removes exactly the token, a duplicate-free list is walked once per token, before_handle_events is given own-source events only.", "§6 C14"),
+ "C15": ("Lean theorems: a slot handed out and vacated again leaks nothing (occupied count and every other slot's lookup unchanged), the batch loop processes every event and keeps the first error.", "§6 C15"),
+ "C16": ("Lean theorems about the poller model: ADD adds exactly one entry and fails on a present fd, MOD/DEL fail on an absent fd, DEL removes entry and ready-list node only, re-insertion after delete succeeds, dropping a source removes every fd it still had registered. The model's table is compared with the kernel's own (/proc/self/fdinfo) after every operation.", "§6 C16"),
+}
+for _pid, (_t, _d) in CORE.items():
+    CLAIMED[_pid] = _core(_pid, _t, _d)
+
 PENDING_REASON = "not claimed yet in this revision: model and theorems are being built (see DESIGN.md §12 build order); no check is registered rather than registering an unsound one"
 
 def main():
